@@ -267,8 +267,11 @@ func (w *world) openChannel(honest bool) {
 	if !honest && r.Chance(0.08) {
 		hops = []string{"connection-99"}
 	}
+	// the counterparty's port id differs from the local one on a third of the channels (ICA-style
+	// icacontroller-x <-> icahost): code that keys local state by the wrong end's port must not be masked
+	cpPort := lib.Pick(r, []string{"mock", "mock", "mockcp"})
 	if r.Bool() {
-		out := w.send(lib.M{"f": "chanOpenInit", "port": "mock", "order": ord, "hops": hops, "cpPort": "mock", "version": "v1", "app": app, "lc": okLC(p(0.9), true, w.t)})
+		out := w.send(lib.M{"f": "chanOpenInit", "port": "mock", "order": ord, "hops": hops, "cpPort": cpPort, "version": "v1", "app": app, "lc": okLC(p(0.9), true, w.t)})
 		if Class(out) == "ok" && (honest || r.Chance(0.8)) {
 			id := strings.Split(Ret(out), "|")[0]
 			a2 := lib.M{"cb": "ok"}
@@ -279,7 +282,7 @@ func (w *world) openChannel(honest bool) {
 				"ph": lib.M{"r": "1", "h": "9"}, "app": a2, "lc": okLC(p(0.9), true, w.t)})
 		}
 	} else {
-		out := w.send(lib.M{"f": "chanOpenTry", "port": "mock", "order": ord, "hops": hops, "cpPort": "mock", "cpChan": "channel-" + lib.U(uint64(20+r.Intn(5))), "cpVersion": "v1",
+		out := w.send(lib.M{"f": "chanOpenTry", "port": "mock", "order": ord, "hops": hops, "cpPort": cpPort, "cpChan": "channel-" + lib.U(uint64(20+r.Intn(5))), "cpVersion": "v1",
 			"ph": lib.M{"r": "1", "h": "9"}, "app": app, "lc": okLC(p(0.9), true, w.t)})
 		if Class(out) == "ok" && (honest || r.Chance(0.8)) {
 			id := strings.Split(Ret(out), "|")[0]
